@@ -350,10 +350,27 @@ def run(check, repo: Repo) -> None:
     omod_, _ = repo.cls(f"{PO}:PtychographyOpt")
     fam = {"step_optimizers": "step_optimizer", "zero_grad_all": "zero_optimizer_grad", "step_schedulers": "step_scheduler", "set_schedulers": "set_scheduler"}
     models = {}
+    resolved = {}
     for meth, callee in fam.items():
         _, f_ = repo.func(f"{PO}:PtychographyOpt.{meth}")
         check.analysed(f"{PO}:PtychographyOpt.{meth}")
-        models[meth] = sorted({unparse(c.func.value) for c in calls_in(f_) if isinstance(c.func, ast.Attribute) and c.func.attr == callee})
+        recv = set()
+        resolved[meth] = True
+        for c in calls_in(f_):
+            if isinstance(c.func, ast.Attribute) and c.func.attr == callee:
+                r = c.func.value
+                if isinstance(r, ast.Name):
+                    # `for model in (self.obj_model, self.probe_model): model.<callee>()` — a loop over a literal of attributes
+                    from ..core.repo import IterItem
+                    ds = definitions(f_, r.id)
+                    if ds and all(isinstance(d, IterItem) and d.index is None and isinstance(d.iter, (ast.Tuple, ast.List)) for d in ds):
+                        for d in ds:
+                            recv |= {unparse(e) for e in d.iter.elts}
+                        continue
+                    resolved[meth] = False
+                recv.add(unparse(r))
+        models[meth] = sorted(recv)
+        resolved[meth] = resolved[meth] and all(m.startswith("self.") for m in models[meth])
     ref = models["step_optimizers"]
     check.floor("models stepped by step_optimizers", len(ref), 3)
     for meth in ("zero_grad_all", "step_schedulers", "set_schedulers"):
@@ -361,7 +378,8 @@ def run(check, repo: Repo) -> None:
         check.decide(models[meth] == ref, "C09-R6", f"PtychographyOpt.{meth} dispatches to the same models as step_optimizers", str(models[meth]), omod_.line(f_),
                      fail_detail=f"{meth} reaches {models[meth]}, step_optimizers steps {ref}: " +
                      ("gradients of a stepped model are never cleared and accumulate across batches — the mean of per-batch gradients no longer equals the full-batch gradient"
-                      if meth == "zero_grad_all" else "a model's scheduler is not handled like its optimizer"))
+                      if meth == "zero_grad_all" else "a model's scheduler is not handled like its optimizer"),
+                     definite=resolved[meth] and resolved["step_optimizers"] and bool(models[meth]) and set(models[meth]) < set(ref))
 
     # ---- R5 loss scaling ------------------------------------------------------------------------
     _, ee = repo.func(f"{PB}:PtychographyBase.error_estimate")
